@@ -107,11 +107,11 @@ Proof.
   - intros k y Hy. destruct (Hinv _ _ Hy) as [[-> [-> _]]|[Ne H]].
     + pose proof (IR_progress _ HIR _ _ Hx) as Hp. unfold req_progress, can_start in *. cbn_m.
       destruct (m_kind x).
-      * destruct Hcs as [A B]. rewrite A in *. lia.
+      * destruct Hcs as [A B]. rewrite (ngood_S_good _ _ A). lia.
       * destruct Hcs as [e [A B]]. destruct Hp as [P1 P2].
         assert (m_idx x < length (m_els x)) by (apply nth_error_Some; congruence).
         split; [lia|]. rewrite (firstn_S_nth A), count_app. simpl. rewrite B. lia.
-      * destruct Hcs as [A B]. rewrite A in *. lia.
+      * destruct Hcs as [A B]. rewrite (ngood_S_good _ _ A). lia.
     + apply (IR_progress _ HIR) in H. exact H.
   - intros k y Hy. destruct (Hinv _ _ Hy) as [[-> [-> _]]|[Ne H]].
     + unfold req_final_ok. cbn. rewrite Hfin. auto.
